@@ -174,3 +174,21 @@ reg("C10", "c10", [("faults", "plain", 3), ("domain", "plain", 1)], "fault_enume
                "self-consistent fields, never another exception, never 'optimal'. Per-instance sweep is exhaustive.",
     level_note="Trusts the instrumentation (wrapper around misc.kkt_ldl) and vlib/judge.py for field recomputation.",
     design_ref="4/C10")
+
+reg("C04", "c04", [("nonlinear", "plain", 1)], "exploration",
+    rule="Hypothesis draws n<=3, a planted in-domain strictly feasible point x*, an objective (cp: convex quadratic of any "
+         "rank, log-sum-exp, log barrier -sum log(b-Ax), sum w/(x-l), sum (x-l)log(x-l), sum sqrt(rho+(Ax-b)^2); cpl: "
+         "linear c; gp: posynomial data K,F,g), 0-2 nonlinear constraints from the same families shifted so that "
+         "f_k(x*) = -margin, linear cone constraints (box + generated l/q/s blocks) and 0-1 equalities through x*, "
+         "dense or sparse Df/H/G, kktsolver in {default, ldl, ldl2, chol}, tolerance/refinement options; functions with "
+         "restricted domain answer None outside it and every call of F is logged. Non-trivial = status 'optimal' with "
+         ">=1 nonlinear constraint or >=1 refused trial point; distinct = SHA-1 of case JSON.",
+    assumptions=["cp/gp return the reduced vectors of the internal epigraph problem: stationarity and primal residual are "
+                 "judged through bounds derived from the epigraph KKT conditions (|1-z0| <= feastol*dres0)",
+                 "exceptions are judged by C10"],
+    technique="property-based testing (Hypothesis) with numpy re-evaluation of the user functions; cp-vs-coneqp and gp-vs-cp differentials; call-history invariant",
+    level_text="Each 'optimal' result of cpl/cp/gp on ~6e3 (quick) / 1.2e5 (thorough) generated problems is re-judged: x in "
+               "the domain, residuals with the documented x0-normalisers, cone membership, gap criteria and fields; cp on "
+               "quadratic data must agree with coneqp, gp with cp; F(x,z) is never called where F(x) refused.",
+    level_note="Trusts vlib/nlfam.py (function families with analytic gradients/Hessians) and numpy.",
+    design_ref="4/C04")
